@@ -13,16 +13,19 @@ import ast
 import re
 from pathlib import Path
 
-from ..astx import call_name, calls_named, dotted, enclosing_stmt, expand, kwarg, last
+from ..astx import call_name, calls_named, dotted, enclosing_stmt, expand, kwarg, last, reaching_def
 from ..cfg import CFG
-from ..index import AnchorError, FuncNode, _set_parents, enclosing_class, enclosing_function, parent, qualname_of
+from ..index import AnchorError, FuncNode, _baseline_helpers, _set_parents, enclosing_class, enclosing_function, parent, qualname_of
+from ..inline import Inliner
 from ..selftest import Twin
+from .c17 import _multi
 
 EXPLANATION = (
     "R1 (pairing, CFG): every site that changes the current environment — a call of `set_settings_current_environment` anywhere in the "
     "llamactl package, or an SQL statement writing the settings key `current_environment_api_url` outside that primitive — lies on no "
     "normal path entry -> site -> exit that avoids a clear of the profile pointer (`set_settings_current_profile(None)` or SQL DELETE of "
-    "the key `current_profile`); SQL string literals are read with a small statement reader (kind, table, quoted keys, WHERE conjuncts). "
+    "the key `current_profile`); SQL texts (literals, or concatenations of literals, straight-line locals and module-level string constants) are read "
+    "with a small statement reader (kind, table, quoted keys, WHERE conjuncts); private static helpers that are new with respect to the confirmed tree are folded into their callers first. "
     "R2: the stored name is resolved inside the asking environment: AuthService.get_current_profile passes `self.env.api_url`, "
     "ConfigManager.get_current_profile forwards it to get_profile, whose SELECT filters on both `name = ?` and `api_url = ?` bound to "
     "those parameters in that order. "
@@ -98,18 +101,77 @@ class Sql:
         return self.toks[: self.toks.index("where")].count("?")
 
 
+def _module_strs(node: ast.AST) -> dict[str, str]:
+    """Module-level names of the module that contains `node`, bound exactly once, to a string literal."""
+    root = node
+    while parent(root) is not None:
+        root = parent(root)
+    cache = root.__dict__.get("_c37_strs")
+    if cache is None:
+        seen: dict[str, list] = {}
+        for st in getattr(root, "body", []):
+            tg = st.targets if isinstance(st, ast.Assign) else [st.target] if isinstance(st, ast.AnnAssign) and st.value is not None else []
+            for t in tg:
+                if isinstance(t, ast.Name):
+                    seen.setdefault(t.id, []).append(st.value)
+        cache = {k: v[0].value for k, v in seen.items() if len(v) == 1 and isinstance(v[0], ast.Constant) and isinstance(v[0].value, str)}
+        root.__dict__["_c37_strs"] = cache
+    return cache
+
+
+def const_text(e: ast.AST, depth: int = 6) -> str | None:
+    """The string an expression always evaluates to: a literal, a concatenation / f-string of such, a local bound to
+    one by a straight-line assignment, or a module-level string constant.  None when that cannot be read off."""
+    if depth <= 0:
+        return None
+    if isinstance(e, ast.Constant):
+        return e.value if isinstance(e.value, str) else None
+    if isinstance(e, ast.BinOp) and isinstance(e.op, ast.Add):
+        l, r = const_text(e.left, depth - 1), const_text(e.right, depth - 1)
+        return None if l is None or r is None else l + r
+    if isinstance(e, ast.JoinedStr):
+        parts = []
+        for v in e.values:
+            if isinstance(v, ast.FormattedValue):
+                if v.format_spec is not None or v.conversion != -1:
+                    return None
+                v = v.value
+            t = const_text(v, depth - 1)
+            if t is None:
+                return None
+            parts.append(t)
+        return "".join(parts)
+    if isinstance(e, ast.Name) and isinstance(e.ctx, ast.Load) and parent(e) is not None:
+        fn = enclosing_function(e)
+        local = fn is not None and any((isinstance(n, ast.Name) and n.id == e.id and isinstance(n.ctx, ast.Store)) or (isinstance(n, ast.arg) and n.arg == e.id) for n in ast.walk(fn))
+        if local:
+            d = reaching_def(e.id, e)
+            return const_text(d, depth - 1) if d is not None else None
+        return _module_strs(e).get(e.id)
+    return None
+
+
 def sql_of(call: ast.Call) -> Sql | None:
-    """The literal SQL of an `X.execute("...", params)` call."""
+    """The SQL text of an `X.execute(<text>, params)` call (literal, or assembled from literals and string constants)."""
     if not (isinstance(call.func, ast.Attribute) and call.func.attr in ("execute", "executemany", "executescript")):
         return None
     if not call.args:
         return None
     a = call.args[0]
-    if isinstance(a, ast.Constant) and isinstance(a.value, str):
-        return Sql(a.value)
+    txt = const_text(a)
+    if txt is not None:
+        return Sql(txt)
     if isinstance(a, ast.JoinedStr):
-        raise AnchorError(f"SQL built with an f-string at line {call.lineno}: the statement reader needs literal SQL")
+        raise AnchorError(f"SQL built with an f-string over non-constant parts at line {call.lineno}: the statement reader needs constant SQL")
     return None
+
+
+def sql_params(call: ast.Call) -> ast.AST | None:
+    """The parameter tuple of an execute call, through a straight-line local."""
+    prm = call.args[1] if len(call.args) > 1 else kwarg(call, "parameters")
+    if isinstance(prm, ast.Name):
+        prm = expand(prm, enclosing_stmt(call), depth=2)
+    return prm
 
 
 def settings_writes(fn: ast.AST) -> list[tuple[ast.Call, Sql]]:
@@ -188,7 +250,7 @@ def check_lookup_sql(fn: ast.AST, name_param: str, env_param: str) -> tuple[bool
                 continue
             if "api_url" not in cols:
                 return False, f"profile lookup filters on {cols} only — the stored name is resolved across environments", c
-            params = c.args[1] if len(c.args) > 1 else None
+            params = sql_params(c)
             if not isinstance(params, (ast.Tuple, ast.List)):
                 raise AnchorError(f"parameters of the profile lookup at line {c.lineno} are not a literal tuple")
             skip = s.placeholders_before_where()
@@ -482,7 +544,7 @@ def eval_rules(mods: dict[str, tuple[object, ast.AST]], all_mods: list[tuple[obj
             if s.kind == "delete" and s.table == "environments":
                 del_env = c
             if s.kind == "delete" and s.table == "profiles" and ("api_url", "?") in s.where():
-                prm = c.args[1] if len(c.args) > 1 else None
+                prm = sql_params(c)
                 if isinstance(prm, (ast.Tuple, ast.List)) and len(prm.elts) == 1 and dotted(prm.elts[0]) == dp[0]:
                     del_prof = c
             if s.is_write and s.table == "settings" and ENV_KEY in s.quoted and s.kind != "delete":
@@ -493,7 +555,7 @@ def eval_rules(mods: dict[str, tuple[object, ast.AST]], all_mods: list[tuple[obj
            "no `DELETE FROM profiles WHERE api_url = ?` bound to the deleted url", [])
     ok, reason = False, "no reset of the current environment in delete_environment"
     if reset is not None:
-        prm = reset.args[1] if len(reset.args) > 1 else None
+        prm = sql_params(reset)
         val = dotted(prm.elts[0]) if isinstance(prm, (ast.Tuple, ast.List)) and prm.elts else None
         to_default = val == "DEFAULT_ENVIRONMENT.api_url"
         rn = cfg.node_of_containing(reset)
@@ -517,6 +579,50 @@ def eval_rules(mods: dict[str, tuple[object, ast.AST]], all_mods: list[tuple[obj
     yield ("ob", "C37.R4", "delete-resets-current", "after deleting the row, delete_environment tests whether it was current and resets to DEFAULT_ENVIRONMENT", ok, cm, reset or del_env, d_env, reason, [])
 
 
+# ------------------------------------------------------------------------------ new private static helpers folded into their callers
+class _StaticInliner(Inliner):
+    """sa/inline.py folds new private helpers into their callers but leaves decorated functions alone. A private
+    `@staticmethod` called as `self.f(…)` / `cls.f(…)` / `ClassName.f(…)` is a plain function in a class namespace: it is
+    folded the same way (no receiver parameter to drop)."""
+
+    def helper_for(self, call: ast.Call, cls: ast.ClassDef | None):
+        got = super().helper_for(call, cls)
+        if got is not None or cls is None:
+            return got
+        f = call.func
+        if not (isinstance(f, ast.Attribute) and isinstance(f.value, ast.Name) and f.value.id in ("self", "cls", cls.name)):
+            return None
+        h = self.mod.functions.get(f"{qualname_of(cls)}.{f.attr}")
+        if h is None or f.attr in self.protected or not f.attr.startswith("_") or f.attr.startswith("__"):
+            return None
+        if len(h.decorator_list) != 1 or dotted(h.decorator_list[0]) != "staticmethod":
+            return None
+        if any(isinstance(n, (ast.Yield, ast.YieldFrom)) for n in ast.walk(h)) or h.args.vararg or h.args.kwarg:
+            return None
+        if any(isinstance(n, ast.Call) and n is not call and isinstance(n.func, (ast.Name, ast.Attribute)) and (getattr(n.func, "id", None) == f.attr or getattr(n.func, "attr", None) == f.attr) for n in ast.walk(h)):
+            return None  # recursive
+        return h, False
+
+
+def _own_words() -> set[str]:
+    return set(re.findall(r"[A-Za-z_][A-Za-z0-9_]*", Path(__file__).read_text(encoding="utf-8")))
+
+
+def _fold_static_helpers(repo, m):
+    """View of module m in which private static helpers that are new with respect to the confirmed tree (sa/baseline_helpers.json)
+    and are not anchors of this module are folded into their callers; m itself when there is none."""
+    base = _baseline_helpers().get(m.rel, ())
+    words = getattr(repo, "_auto_words", None) or _own_words()
+    privates = {q.split(".")[-1] for q in m.functions if q.split(".")[-1].startswith("_") and not q.split(".")[-1].startswith("__")}
+    new_static = {q.split(".")[-1] for q, f in m.functions.items() if q.split(".")[-1] in privates and q.split(".")[-1] not in base and q.split(".")[-1] not in words
+                  and len(f.decorator_list) == 1 and dotted(f.decorator_list[0]) == "staticmethod"}
+    if not new_static:
+        return m
+    inl = _StaticInliner(m, privates - new_static)
+    view = inl.run()
+    return view if inl.inlined_calls else m
+
+
 class _FixMod:
     def __init__(self, name: str, rel: str, tree: ast.AST):
         self.name, self.rel, self.tree = name, rel, tree
@@ -524,10 +630,14 @@ class _FixMod:
 
 def run(chk) -> None:
     repo = chk.repo
-    cm, em, am = repo.module(CFGMOD), repo.module(ENVMOD), repo.module(AUTHMOD)
     pkg = [m for m in repo.by_rel.values() if m.name == PKG or m.name.startswith(PKG + ".")]
     for m in pkg:
         repo.consulted.add(m.rel)
+    pkg = [_fold_static_helpers(repo, m) for m in pkg]
+    by_name = {m.name: m for m in pkg}
+    for need in (CFGMOD, ENVMOD, AUTHMOD):
+        repo.module(need)  # AnchorError when missing
+    cm, em, am = by_name[CFGMOD], by_name[ENVMOD], by_name[AUTHMOD]
     mods = {"config": (cm, cm.tree), "env": (em, em.tree), "auth": (am, am.tree)}
     floors_min = {
         ("C37.R1", "sites that change the current environment"): 3,
@@ -570,7 +680,39 @@ _CU = '        self.config_manager().set_settings_current_environment(env.api_ur
 _SEL = '                "SELECT id, name, api_url, project_id, api_key, api_key_id, device_oidc FROM profiles WHERE name = ? AND api_url = ?",\n                (name, env_url),'
 _GCP = '        if current_name:\n            return self.get_profile(current_name, env_url)\n        return None'
 _CHK = "        if not env:\n            raise ValueError(\n                f\"Environment '{api_url}' not found. Add it with 'llamactl auth env add <API_URL>'\"\n            )\n"
+_GP = ('        with sqlite3.connect(self.db_path) as conn:\n            row = conn.execute(\n' + _SEL + '\n            ).fetchone()\n            if row:\n                return _to_auth(row)\n        return None\n')
+_COLS = ("def _to_auth(row: Any) -> Auth:", '_COLS = "id, name, api_url, project_id, api_key, api_key_id, device_oidc"\n\n\ndef _to_auth(row: Any) -> Auth:')
+# helper names are assembled so that they are not words of this file (a word of this file is an anchor and is never folded)
+_H1 = "_one" + "_profile_row"
+_H2 = "_point" + "_at_default"
+
+
+def _gp_helper(where: str, params: str) -> str:
+    return ('        with sqlite3.connect(self.db_path) as conn:\n            return self.' + _H1 + '(conn, "' + where + '", ' + params + ')\n\n'
+            '    @staticmethod\n    def ' + _H1 + '(conn: sqlite3.Connection, where: str, params: tuple[Any, ...]) -> Auth | None:\n'
+            '        query = "SELECT " + _COLS + " FROM profiles WHERE " + where\n        row = conn.execute(query, params).fetchone()\n        if not row:\n            return None\n        return _to_auth(row)\n')
+
+
+_RST = ('                conn.execute(\n                    "INSERT OR REPLACE INTO settings (key, value) VALUES (\'current_environment_api_url\', ?)",\n                    (DEFAULT_ENVIRONMENT.api_url,),\n                )\n'
+        '                # The active profile is stored by name only: a same-named profile of\n                # the default environment must not become active without being picked.\n'
+        '                conn.execute("DELETE FROM settings WHERE key = \'current_profile\'")\n\n            conn.commit()\n            return True\n')
+
+
+def _rst_helper(clear: bool) -> str:
+    return ('                self.' + _H2 + '(conn)\n\n            conn.commit()\n            return True\n\n    @staticmethod\n    def ' + _H2 + '(conn: sqlite3.Connection) -> None:\n'
+            '        conn.execute(\n            "INSERT OR REPLACE INTO settings (key, value) VALUES (\'current_environment_api_url\', ?)",\n            (DEFAULT_ENVIRONMENT.api_url,),\n        )\n'
+            + ('        conn.execute("DELETE FROM settings WHERE key = \'current_profile\'")\n' if clear else ""))
+
+
 TWINS: list[Twin] = [
+    # ---- SQL assembled from a shared column constant; single-row lookup / reset block behind a private static helper
+    Twin("benign: lookup through a static helper over a column constant", _C, *_multi(_C, [_COLS, (_GP, _gp_helper("name = ? AND api_url = ?", "(name, env_url)"))]), None),
+    Twin("static helper lookup filters on the name only", _C, *_multi(_C, [_COLS, (_GP, _gp_helper("name = ?", "(name,)"))]), "C37.R2"),
+    Twin("static helper lookup binds the parameters swapped", _C, *_multi(_C, [_COLS, (_GP, _gp_helper("name = ? AND api_url = ?", "(env_url, name)"))]), "C37.R2"),
+    Twin("benign: SELECT concatenated with a column constant", _C, *_multi(_C, [_COLS, (_SEL, _SEL.replace('"SELECT id, name, api_url, project_id, api_key, api_key_id, device_oidc FROM', '"SELECT " + _COLS + " FROM'))]), None),
+    Twin("concatenated SELECT loses the environment filter", _C, *_multi(_C, [_COLS, (_SEL, _SEL.replace('"SELECT id, name, api_url, project_id, api_key, api_key_id, device_oidc FROM', '"SELECT " + _COLS + " FROM').replace(" AND api_url = ?", "").replace("(name, env_url)", "(name,)"))]), "C37.R2"),
+    Twin("benign: reset block of delete_environment in a static helper", _C, _RST, _rst_helper(True), None),
+    Twin("extracted reset block forgets to clear the profile pointer", _C, _RST, _rst_helper(False), "C37.R1"),
     # ---- R1 breaking
     Twin("switch keeps the profile pointer", _E, _SW, '        self.config_manager().set_settings_current_environment(api_url)\n        return env', "C37.R1"),
     Twin("clear only for authenticated environments", _E, _CU, '        self.config_manager().set_settings_current_environment(env.api_url)\n        if env.requires_auth:\n            self.config_manager().set_settings_current_profile(None)\n', "C37.R1"),
